@@ -184,9 +184,10 @@ func C37(e *simkern.Env) {
 			return h
 		}
 		// ---- pipe: once with the planned (panicking) hook, once with a silent one
+		cut := 0
 		runPipe := func(h *planHook) (*pipew.Session, simkern.StopReason, []int) {
 			hx.Rec.Reset()
-			sess := &pipew.Session{Srv: pipew.NewServer(func(s *vgirpc.Server) { s.SetDispatchHook(h) }), Ops: ops}
+			sess := &pipew.Session{Srv: pipew.NewServer(func(s *vgirpc.Server) { s.SetDispatchHook(h) }), Ops: ops, S2CCutAt: cut}
 			// record the event index at the start of every call
 			marks := []int{}
 			_ = marks
@@ -235,6 +236,39 @@ func C37(e *simkern.Env) {
 				}
 				if !e.Violated() && len(sessA.Results) != len(sessB.Results) {
 					e.Violate("hook-panic-changes-later-calls", "pipe:session", "%d calls completed with the panicking hook, %d with a silent hook", len(sessA.Results), len(sessB.Results))
+				}
+				// ---- the same history once more; the peer hangs up at a drawn
+				// byte of the server's output (the server's next write fails)
+				if !e.Violated() && len(sessB.WireS2C) > 1 && tp.Bool(2, 3) {
+					cut = 1 + tp.Draw(len(sessB.WireS2C)-1)
+					e.Knob("peer_hangup_after_bytes", cut)
+					hC := mkHook(false)
+					sessC, rC, _ := runPipe(hC)
+					cut = 0
+					sim.Fault("peer-hangup-mid-response")
+					if rC == simkern.StopDeadlock {
+						e.Violate("session-deadlock", "pipe-hangup:"+nextSig(sessC), "after the peer hung up at byte %d: %s", cut, sessC.StuckDetail())
+					} else if rC == simkern.StopDone && sessC.ServerReturned {
+						judged++
+						ends := map[int]int{}
+						for _, ev := range hC.events {
+							if !ev.start {
+								ends[ev.token]++
+							}
+						}
+						for _, ev := range hC.events {
+							if ev.start && ends[ev.token] != 1 {
+								kind := "unary"
+								if ev.mtype != "unary" && ev.mtype != "" {
+									kind = "stream"
+								}
+								e.Violate("end-count", "pipe-hangup:"+kind, "the peer hung up after %d bytes of the server's output; Serve returned, start ran for %s (request %s) and its end ran %d times, expected exactly 1", sessC.SConn.W.Written, ev.method, ev.reqID, ends[ev.token])
+								break
+							}
+						}
+					} else if rC != simkern.StopDone {
+						reason = rC
+					}
 				}
 			}
 		}
@@ -325,11 +359,11 @@ func init() {
 	Registry["C37"] = &Info{
 		Run:   C37,
 		Level: "exploration",
-		Rule:  "each run draws a call history (2-7 calls: unary, producer/exchange/dynamic streams with failing turns, init failures, cancels, malformed and unknown-method requests) and a hook panic plan (rate 0, 3/10 or 6/10 per callback, separately for start and end); the history runs on a simulated pipe and over HTTP (every init/continuation/cancel is its own dispatch; producer batch limit 0-2), each once with the planned hook and once with a silent recording hook; per dispatch the hook events are judged and the client-visible responses of the two runs compared; distinct = schedule fingerprint",
+		Rule:  "each run draws a call history (2-7 calls: unary, producer/exchange/dynamic streams with failing turns, init failures, cancels, malformed and unknown-method requests) and a hook panic plan (rate 0, 3/10 or 6/10 per callback, separately for start and end); the history runs on a simulated pipe and over HTTP (every init/continuation/cancel is its own dispatch; producer batch limit 0-2), each once with the planned hook and once with a silent recording hook; per dispatch the hook events are judged and the client-visible responses of the two runs compared; in two runs of three the pipe history runs a third time with the peer hanging up at a drawn byte of the server's output, after which every start must have had exactly one end; distinct = schedule fingerprint",
 		Real:  []string{"vgirpc serveOne hook bracket, HttpServer.startDispatchHook and its deferred end on unary / stream init / exchange / producer continuation / cancel paths"},
 		Stub:  []string{"transports", "protocol client", "recording / panicking DispatchHook", "scripted handlers"},
 		Quick: 700, Thorough: 60000,
-		FaultKinds: []string{"hook-panic-in-start", "hook-panic-in-end", "malformed-request", "client-cancel"},
+		FaultKinds: []string{"hook-panic-in-start", "hook-panic-in-end", "malformed-request", "client-cancel", "peer-hangup-mid-response"},
 		Assumptions: []string{"calls refused before dispatch (malformed, unknown method, version gate, unresolvable tokens) carry no demand other than 'no end without a start'", "when start panicked the statement makes no demand on end"},
 	}
 }
